@@ -10,6 +10,7 @@ import Gojq.Proofs.MiniVMRefineCond
 import Gojq.Proofs.MiniVMRefineVar
 import Gojq.Proofs.MiniVMRefineLoop
 import Gojq.Proofs.MiniVMRefineForeach
+import Gojq.Proofs.MiniVMRefineObj
 namespace Gojq.MiniVM
 variable [IterMsg]
 set_option linter.unusedSectionVars false
@@ -49,6 +50,11 @@ theorem compile_yields {code defs entry nf} (hfun : FuncsOK code defs entry nf) 
       | bind x s b => exact cy_bind hfun ihn x s b
       | reduce x src init upd => exact cy_reduce hfun ihn x src init upd
       | foreach x src init upd ext => exact cy_foreach hfun ihn x src init upd ext
+      | obj sp => exact cy_obj hfun ihn sp
+      | objStart => exact cy_objStart hfun ihn
+      | objSnoc init k v => exact cy_objSnoc hfun ihn init k v
+      | objSnocC init key v => exact cy_objSnocC hfun ihn init key v
+      | delay q => exact cy_delay hfun ihn q
   exact key
 
 
@@ -76,6 +82,11 @@ theorem compile_length (entry : Name → Nat) : ∀ (q : Q) (g : Ctx) (e p : Nat
   | bind x s b ihs ihb => intro g e p; simp [compile, Q.size, ihs, ihb]; omega
   | reduce x src init upd i1 i2 i3 => intro g e p; simp [compile, Q.size, i1, i2, i3]; omega
   | foreach x src init upd ext i1 i2 i3 i4 => intro g e p; simp [compile, Q.size, i1, i2, i3, i4]; omega
+  | obj sp ih => intro g e p; simp [compile, Q.size, ih]
+  | objStart => intros; rfl
+  | objSnoc init k v i1 i2 i3 => intro g e p; simp [compile, Q.size, i1, i2, i3]; omega
+  | objSnocC init key v i1 i2 => intro g e p; simp [compile, Q.size, i1, i2]; omega
+  | delay q ih => intro g e p; simp [compile, Q.size, ih]
 
 theorem Seg.mid (A B C : List Instr) : Seg (A ++ B ++ C) A.length B := by
   intro i hi
@@ -364,6 +375,6 @@ def exForeach : Prog :=
   { defs := [], main := .foreach 0 .iter (.const (.num (.int 0))) (.comma (.var 0) (.arr .id)) (.arr (.comma (.var 0) .id)) }
 
 /-- a message function for evaluating examples -/
-def exMsg : IterMsg := ⟨fun _ => .str [], fun _ _ => some .null, fun _ _ => .null⟩
+def exMsg : IterMsg := ⟨fun _ => .str [], fun _ _ => some .null, fun _ _ => .null, fun _ => .null⟩
 
 end Gojq.MiniVM
